@@ -6,6 +6,34 @@ import os
 V = os.path.dirname(os.path.dirname(os.path.abspath(__file__)))
 
 CHECKS = {
+    "C15": dict(
+        engine="E2-explicit-state",
+        category="model_checking",
+        text="Explicit-state BFS over the real SectionOutput objects of one decorated Output at terminal width 8: every history of create / "
+             "write_line / overwrite / clear() / clear(n) over 1-3 sections with texts below, at and above the width (and two-line texts) up to "
+             "depth 6 (thorough: depth 8 with 2 sections, depth 7 with 3). After every operation the emitted bytes are interpreted on a terminal "
+             "emulator and the screen must equal sentinel + the sections' logical lines in creation order wrapped at 8 (reference: list of lists). "
+             "The same histories on undecorated outputs (Plain/Null formatter): text + one newline per line, nothing for clear, no control byte.",
+        design_ref="2/C15",
+        note="Trusted: mc/term.py (xterm deferred wrap, unbounded height), the list-of-lists reference, props/_c15_bfs.py (level-synchronous BFS with one "
+             "global fingerprint set; states rebuilt by replay), fingerprint = canon over the whole Output + model + cursor. clear(n>lines), clear(0), "
+             "tabs, wide characters, scrolling are outside the alphabet.",
+        technique="explicit-state model checking of the implementation against a screen model (BFS over operation histories, full-state fingerprints, terminal emulator oracle)",
+    ),
+    "C18": dict(
+        engine="E2-explicit-state",
+        category="model_checking",
+        text="The dialogue of the real ChoiceQuestion is explored as a tree of typed-line histories (no dedup): 184 configurations (7 choice lists incl. "
+             "duplicated, numeric-looking, case-differing and spaced entries x single/multi x defaults x attempts {unlimited,1,2,3}) x every script over a "
+             "13(+1 rotated)-answer alphabet up to depth 3 (thorough 4), each run on prefix + end of input. Oracle: reference validator from the statement "
+             "(members only, index/value interchangeable, one error line per rejected entry, failure after exactly N attempts), termination decided by a read "
+             "budget on the input stream (never wall-clock); confirmation patterns x answers x defaults; every question kind non-interactive: default, zero reads, "
+             "nothing written; a re-asked question object equals a fresh one.",
+        design_ref="2/C18",
+        note="Trusted: the reference validator in props/c18.py; `subprocess` inside question.py is stubbed from outside so no stty is reachable (self-probed). "
+             "Corners the statement leaves open (ambiguous values, case, blank list parts, result order, exception class) are accepted either way.",
+        technique="explicit-state exploration of the dialogue tree on the implementation with a reference validator and a read-budget termination oracle",
+    ),
     "C19": dict(
         engine="E3-scheduler",
         category="model_checking",
